@@ -106,7 +106,7 @@ def expected(kind, unroll=None):
         for t in VALUE_TAGS:
             if t != "Bool":
                 right.append(P([(ev(c1), "is Ok"), (okv(c1), "is " + t)], [("eval", c1)], "Err(InvalidType)"))
-        right.append(P([(ev(c1), "is Ok"), (okv(c1), "is Bool")], [("eval", c1)], "Ok(Bool(%s.Bool.0))" % okv(c1)))
+        right.append(P([(ev(c1), "is Ok"), (okv(c1), "is Bool")], [("eval", c1)], "Ok(%s)" % okv(c1)))
         right = [(tuple(c), tuple(e), r) for c, e, r in right]
         if kind == "And":
             return to_bool(c0, right, [((), [], "Ok(Bool(False))")])
